@@ -5,7 +5,7 @@ from common import rng_for
 import server_cases as sc
 
 GOOD = ['http://site.test/a', 'https://site.test/b?x=1&y=2', 'http://site.test/', 'https://x']
-BAD = ['HTTP://site.test/a', ' http://site.test/a', 'ftp://site.test/a', '', '//site.test/a', 'http:/x', 'File:///data/a.html',
+BAD = ['http', 'https', 'file', 'http:', 'https:/', 'file:', 'HTTP://site.test/a', ' http://site.test/a', 'ftp://site.test/a', '', '//site.test/a', 'http:/x', 'File:///data/a.html',
        'javascript:alert(1)', 'httpx://y', 'site.test/a', 'http ://x', '\thttps://x', 'https:/\\x', 'FILE:///data/a.html',
        # values a URL library chokes on (unbalanced brackets, hosts that fail IDNA / NFKC checks, odd ports)
        'ftp://[::1', 'ftp://[localhost]/pub', '//[', 'gopher://ex\u2100mple.org/', 'ftp://host\uff03x/', 'ftp://h:99999999/', 'x://[', 'ftp://user:pw@[', 'ws://]']
